@@ -725,6 +725,7 @@ def expected_files(out):
     full, models = out["full"], out["models"][False]
     content = {"f%d" % p: b"INIT%d\n" % p for p in out["present"]}
     skip = set()
+    alt = {}        # finding captured-builtin-last-stage: content when the builtin's text is lost (the code before C04-fix-6)
 
     def name(obj, unop):
         pid = int(obj[1:].split(".")[0])
@@ -741,11 +742,7 @@ def expected_files(out):
             from_bad = st["frm"].startswith("<") and int(st["frm"][1:]) in s["unop"]
             unsure = lone_builtin or bool([c for c in pos["cls"] if c != "oos"]) or "oos" in pos["cls"]
             nxt = s["stages"][i + 1] if i + 1 < n else None
-            if st["kind"] == "B" and s["capture"] and n > 1 and i == n - 1:
-                # finding captured-builtin-last-stage (C04/C11): a builtin that is the LAST stage of a captured pipeline of
-                # several stages runs in a child with capture on, puts its text into its own CommandResult and exits:
-                # the text reaches neither the capture pipe nor a redirection target
-                unsure = True
+            lost_asis = st["kind"] == "B" and s["capture"] and n > 1 and i == n - 1
             if not pos["ok"]:
                 unsure = True              # the diagnostic goes to the stage's current (possibly redirected) stderr
             if nxt is not None and (nxt["kind"] != "E" or not m["posix"][i + 1]["ok"] or nxt["frm"] != "-"):
@@ -781,21 +778,26 @@ def expected_files(out):
                     if data is None:
                         skip.add(nm)
                     else:
+                        if lost_asis and data:
+                            alt[nm] = content.get(nm) or b""
                         content[nm] = (content.get(nm) or b"") + data
-    return content, skip
+    return content, skip, alt
 
 
 def check_files(out):
     """-> list of (file, expected, observed) that differ"""
     if "files_full" not in out or out.get("died"):
         return []
-    exp, skip = expected_files(out)
+    exp, skip, alt = expected_files(out)
     bad = []
+    out["lost_builtin_text"] = []
     names = set(exp) | set(out["files_full"])
     for nm in sorted(names):
         if nm in skip or "/" in nm or nm.startswith("d"):
             continue
         e, o = exp.get(nm), out["files_full"].get(nm)
-        if e != o:
+        if e != o and nm in alt and o == alt[nm]:
+            out["lost_builtin_text"].append(nm)       # exactly the recorded wrong behaviour
+        elif e != o:
             bad.append((nm, None if e is None else e[:80].decode("latin1"), None if o is None else o[:80].decode("latin1")))
     return bad
